@@ -508,7 +508,8 @@ def build(control_events=False):
          modifies=["self.mode_devices"], raises={}, inline_calls=True, bounded=B2)
     C.fn("Mode._control_event_handler", params=dict(callback=Fn, ms_delay=Int, kwargs=Opaque("Kwargs")),
          ensures=[("L5: a delayed control event is a delay of THIS mode's delay manager (cleared when the mode stops), "
-                   "with the configured delay and callback", "own_delay_added(ms_delay, callback)")],
+                   "with the configured delay and callback - a NEW delay each time, never a replacement of a pending one",
+                   "own_delay_added(ms_delay, callback)")],
          modifies=["self.delay.pending.**"], raises={})
 
     def own_delay_added(I, ms, cb):
@@ -516,6 +517,11 @@ def build(control_events=False):
         dm = I.force(I.read_field(this, "delay")).ref
         evs = events_named(I, "delay.add")
         if len(evs) != 1 or evs[0].args["dm"] is not dm:
+            return VBool(False)
+        # ... under a fresh (uuid) name: it can never replace a delayed call that is already pending (two control events
+        # closer together than the delay both take effect), and nothing pending is removed
+        if evs[0].args.get("computed_name") or not str(evs[0].args["name"]).startswith("uuid#") or \
+                [e for e in I.cur_trace() if e.name in ("delay.remove", "delay.clear")]:
             return VBool(False)
         return VBool(z3.And(I.eq(evs[0].args["ms"], ms), I.eq(evs[0].args["callback"], cb)))
     C.helpers["own_delay_added"] = own_delay_added
